@@ -32,6 +32,7 @@ RULE = ('one evaluation = one seeded run: (hist) a single-client history of 20-2
         'limit; (routing) Disk.hash / JSONDisk.hash of ~140 keys x pickle protocols 0-5 compared with the table recorded from the '
         'pinned release and across two fresh interpreters with different PYTHONHASHSEED; (pairs) numerically equal int/float keys '
         'must map to one shard; non-trivial = at least 10 calls / at least one key compared; distinct = SHA-256 of the case')
+RULE += ' ' + 'Histories also change a setting (cull_limit) through one handle and reload it (reset(key)) through the others; every shard of every handle is inspected afterwards.'
 ASSUMPTIONS = ['histories use at most one member of each numerically-equal int/float pair (their split routing is known finding F11 and is probed separately)']
 PROBES = ('cull_expired', 'reopen', 'unpickled_handle', 'routing_keys_compared', 'xproc_runs', 'two_handles', 'reopen_with_new_limit', 'setting_changed')
 TECHNIQUE = 'deterministic simulation (virtual clock, simulated processes) + per-shard model-based checking; routing compared with a recorded table and across fresh interpreters with different hash seeds'
